@@ -1192,6 +1192,10 @@ fn leaf_pool() -> Vec<N> {
         l.m,
         sym("a", Ty::Arr(8, 1)),
         sym("b", Ty::Arr(1, 8)),
+        // same name, types that differ in exactly one component
+        sym("m", Ty::Arr(2, 8)),
+        sym("m", Ty::Arr(1, 9)),
+        sym("a", Ty::Bv(9)),
         N::Sym("a", Ty::Bv(8), SymVia::StrRef),
         N::Sym("a", Ty::Arr(1, 8), SymVia::StrRef),
         N::Sym("b", Ty::Bv(8), SymVia::Builder),
